@@ -51,6 +51,19 @@ fn detach(_t: &JsValue, args: &[JsValue], _ctx: &mut Context) -> JsResult<JsValu
     Ok(JsValue::undefined())
 }
 
+/// host function `__storage(obj)`: which IndexedProperties variant currently backs the object's index keys
+fn storage(_t: &JsValue, args: &[JsValue], _ctx: &mut Context) -> JsResult<JsValue> {
+    use boa_engine::object::IndexProperties;
+    let Some(obj) = args.first().and_then(JsValue::as_object) else { return Ok(JsValue::undefined()); };
+    let o = obj.borrow();
+    let name = match o.properties().index_properties() {
+        IndexProperties::DenseI32(_) => "DenseI32", IndexProperties::DenseF64(_) => "DenseF64",
+        IndexProperties::DenseElement(_) => "DenseElement", IndexProperties::SparseElement(_) => "SparseElement",
+        IndexProperties::SparseProperty(_) => "SparseProperty",
+    };
+    Ok(JsValue::new(boa_engine::JsString::from(name)))
+}
+
 pub fn take_out() -> Vec<String> {
     OUT.with(|o| std::mem::take(&mut *o.borrow_mut()))
 }
@@ -76,6 +89,7 @@ pub fn new_context(l: Limits) -> Context {
     if let Some(v) = l.stack { ctx.runtime_limits_mut().set_stack_size_limit(v); }
     ctx.register_global_builtin_callable(js_string!("print"), 0, NativeFunction::from_fn_ptr(print)).expect("print");
     ctx.register_global_builtin_callable(js_string!("__detach"), 1, NativeFunction::from_fn_ptr(detach)).expect("detach");
+    ctx.register_global_builtin_callable(js_string!("__storage"), 1, NativeFunction::from_fn_ptr(storage)).expect("storage");
     ctx
 }
 
